@@ -79,10 +79,19 @@ func (e *Env) judgeC03(o *scen.Outcome, t *report.Tally, feat string, sampled *a
 		return nil
 	}
 	t.AddValidated(1)
-	if len(a.SetupC.Errors) > 0 {
-		// the enumerated setup file itself is not valid Go: generator bug in the harness, never silently passed
-		add("harness-cell-invalid", "enumerated setup file does not type-check: "+a.SetupC.FirstError())
-		return fs
+	for _, err := range a.SetupC.Errors {
+		// a helper in the setup file may use a to-be-generated function: that alone is not an error of the input
+		undefinedGenerated := false
+		for _, m := range a.Setup.Methods() {
+			if strings.Contains(err.Error(), "undefined: "+m.Name) {
+				undefinedGenerated = true
+			}
+		}
+		if !undefinedGenerated {
+			// the enumerated setup file itself is not valid Go: generator bug in the harness, never silently passed
+			add("harness-cell-invalid", "enumerated setup file does not type-check: "+err.Error())
+			return fs
+		}
 	}
 	if o.Res.Exit != 0 {
 		t.Family(o.Cell.Family, false, false)
